@@ -761,4 +761,124 @@ def canon : List Event → List Event
   | [] => []
 termination_by l => l.length
 
+/-! ## (d) the writer: image → element tree → the handler calls its serialisation produces ------------------- -/
+
+/-- writer-side columns of the `Recoder`s: code → the string the writer emits
+    (`intent_codes.niistring`, `data_type_codes.niistring`, `array_index_order_codes.label`,
+    `gifti_encoding_codes.specs`, `gifti_endian_codes.specs`, `xform_codes.niistring`); regenerated. -/
+structure WNames where
+  intent : List (Nat × String)
+  dtype : List (Nat × String)
+  order : List (Nat × String)
+  encoding : List (Nat × String)
+  endian : List (Nat × String)
+  xform : List (Nat × String)
+
+/-- `recoder.<column>[code]` (a KeyError of the real writer is outside the model: the theorems assume the codes
+    of the image are in the tables) -/
+def nameOf (tbl : List (Nat × String)) (c : Nat) : Text := ((tbl.find? (·.1 == c)).map (·.2.toList)).getD []
+
+/-- Python `str(n)` of a non-negative int -/
+def showNat (n : Nat) : Text := (Nat.repr n).toList
+
+/-- `GiftiLabel` as the writer sees it (gifti.py:226-235): `Key=str(key)`, text = `ele.label`, and
+    `Red/Green/Blue/Alpha = str(component)` for the components that are not None (str(float): external, kept as text) -/
+structure WLabel where
+  key : Nat
+  label : Text
+  red : Option Text := none
+  green : Option Text := none
+  blue : Option Text := none
+  alpha : Option Text := none
+deriving Repr
+
+/-- `GiftiCoordSystem` (gifti.py:368-378); `matrixText` = `_arr2txt(self.xform, '%10.6f')` (number printing: external) -/
+structure WCoord where
+  dataspace : Nat
+  xformspace : Nat
+  matrixText : Text
+deriving Repr
+
+/-- `GiftiDataArray` as `_to_xml_element` (gifti.py:511-545) reads it; `endian` is what the writer sets
+    (`gifti_endian_codes.code[sys.byteorder]`, :513); `dataText` = the text of `_data_tag_element(...)`
+    (`writeDataBlock` for the Base64 encodings, `_arr2txt` for ASCII) -/
+structure WDArr where
+  intent : Nat
+  datatype : Nat
+  indOrd : Nat
+  encoding : Nat
+  endian : Nat
+  dims : List Nat
+  extFname : Text
+  extOffset : Nat
+  dmeta : MD
+  coordsys : WCoord
+  dataText : Text
+deriving Repr
+
+/-- `GiftiImage` as `_to_xml_element` (gifti.py:847-857) reads it (meta and label table objects present, as the
+    constructor and the setters guarantee) -/
+structure WImg where
+  version : Text
+  gmeta : MD
+  labels : List WLabel
+  darrays : List WDArr
+deriving Repr
+
+/-- character data of an element: ElementTree writes nothing for an empty / None text, so no handler call occurs -/
+def textEvents (t : Text) : List Event := if t.isEmpty then [] else [.chars t]
+
+/-- an element without children: `<tag attrs>text</tag>` -/
+def leaf (tag : String) (attrs : List (String × Text)) (t : Text) : List Event :=
+  .start tag attrs :: (textEvents t ++ [.stop tag])
+
+/-- caret.py:126-137 one `<MD><Name>…</Name><Value>…</Value></MD>` -/
+def mdEvents (kv : Text × Text) : List Event :=
+  .start "MD" [] :: (leaf "Name" [] kv.1 ++ (leaf "Value" [] kv.2 ++ [.stop "MD"]))
+
+def metaEvents (m : MD) : List Event := .start "MetaData" [] :: (m.flatMap mdEvents ++ [.stop "MetaData"])
+
+def optAttr (k : String) : Option Text → List (String × Text)
+  | none => []
+  | some v => [(k, v)]
+
+/-- gifti.py:228-234 -/
+def labelEvents (l : WLabel) : List Event :=
+  leaf "Label" (("Key", showNat l.key) ::
+    (optAttr "Red" l.red ++ (optAttr "Green" l.green ++ (optAttr "Blue" l.blue ++ optAttr "Alpha" l.alpha)))) l.label
+
+def labelTableEvents (ls : List WLabel) : List Event :=
+  .start "LabelTable" [] :: (ls.flatMap labelEvents ++ [.stop "LabelTable"])
+
+/-- gifti.py:368-378 -/
+def coordEvents (N : WNames) (c : WCoord) : List Event :=
+  .start "CoordinateSystemTransformMatrix" [] ::
+    (leaf "DataSpace" [] (nameOf N.xform c.dataspace) ++ (leaf "TransformedSpace" [] (nameOf N.xform c.xformspace) ++
+      (leaf "MatrixData" [] c.matrixText ++ [.stop "CoordinateSystemTransformMatrix"])))
+
+/-- `data_array.attrib[f'Dim{di}'] = str(dn)` (gifti.py:529-530), starting at index `i` -/
+def dimAttrs : List Nat → Nat → List (String × Text)
+  | [], _ => []
+  | n :: ns, i => ("Dim" ++ toString i, showNat n) :: dimAttrs ns (i + 1)
+
+/-- gifti.py:516-530: the attributes in insertion order -/
+def daAttrs (N : WNames) (d : WDArr) : List (String × Text) :=
+  [("Intent", nameOf N.intent d.intent), ("DataType", nameOf N.dtype d.datatype),
+   ("ArrayIndexingOrder", nameOf N.order d.indOrd), ("Dimensionality", showNat d.dims.length),
+   ("Encoding", nameOf N.encoding d.encoding), ("Endian", nameOf N.endian d.endian),
+   ("ExternalFileName", d.extFname), ("ExternalFileOffset", showNat d.extOffset)] ++ dimAttrs d.dims 0
+
+/-- gifti.py:511-545 -/
+def daEvents (N : WNames) (d : WDArr) : List Event :=
+  .start "DataArray" (daAttrs N d) ::
+    (metaEvents d.dmeta ++ (coordEvents N d.coordsys ++ (leaf "Data" [] d.dataText ++ [.stop "DataArray"])))
+
+/-- `GiftiImage._to_xml_element` (gifti.py:847-857) flattened in document order.
+    CONTRACT (ElementTree serialisation + expat, external): parsing the bytes `to_xml()` produces makes exactly
+    these handler calls, except that expat may deliver the character data of one element in several chunks
+    (`canon es = canon (imgEvents N w)`); escaping/unescaping of `& < > "` and UTF-8 coding are inverse. -/
+def imgEvents (N : WNames) (w : WImg) : List Event :=
+  .start "GIFTI" [("Version", w.version), ("NumberOfDataArrays", showNat w.darrays.length)] ::
+    (metaEvents w.gmeta ++ (labelTableEvents w.labels ++ (w.darrays.flatMap (daEvents N) ++ [.stop "GIFTI"])))
+
 end Nb.C17
